@@ -47,29 +47,6 @@ impl LocalServer {
         Ok(LocalServer { con })
     }
 
-    fn get_latest_version_id(&mut self) -> Result<VersionId> {
-        let t = self.txn()?;
-        let result: Option<StoredUuid> = t
-            .query_row(
-                "SELECT value FROM data WHERE key = 'latest_version_id' LIMIT 1",
-                rusqlite::params![],
-                |r| r.get(0),
-            )
-            .optional()?;
-        Ok(result.map(|x| x.0).unwrap_or(NIL_VERSION_ID))
-    }
-
-    fn set_latest_version_id(&mut self, version_id: VersionId) -> Result<()> {
-        let t = self.txn()?;
-        t.execute(
-            "INSERT OR REPLACE INTO data (key, value) VALUES ('latest_version_id', ?)",
-            params![&StoredUuid(version_id)],
-        )
-        .context("Update task query")?;
-        t.commit()?;
-        Ok(())
-    }
-
     fn get_version_by_parent_version_id(
         &mut self,
         parent_version_id: VersionId,
@@ -93,27 +70,10 @@ impl LocalServer {
         ?;
         Ok(r)
     }
-
-    fn add_version_by_parent_version_id(&mut self, version: Version) -> Result<()> {
-        let t = self.txn()?;
-        t.execute(
-            "INSERT INTO versions (version_id, parent_version_id, data) VALUES (?, ?, ?)",
-            params![
-                StoredUuid(version.version_id),
-                StoredUuid(version.parent_version_id),
-                version.history_segment
-            ],
-        )?;
-        t.commit()?;
-        Ok(())
-    }
 }
 
 #[async_trait(?Send)]
 impl Server for LocalServer {
-    // TODO: better transaction isolation for add_version (gets and sets should be in the same
-    // transaction)
-
     async fn add_version(
         &mut self,
         parent_version_id: VersionId,
@@ -122,8 +82,23 @@ impl Server for LocalServer {
         // no client lookup
         // no signature validation
 
+        // The check of the parent and the two writes happen in one transaction: the version row
+        // and the latest-version marker change together or not at all (an interruption between
+        // them used to leave a version that every other replica saw but that add_version did not
+        // accept as a parent), and another handle cannot add a version in between.
+        let t = self
+            .con
+            .transaction_with_behavior(rusqlite::TransactionBehavior::Immediate)?;
+
         // check the parent_version_id for linearity
-        let latest_version_id = self.get_latest_version_id()?;
+        let latest_version_id: Option<StoredUuid> = t
+            .query_row(
+                "SELECT value FROM data WHERE key = 'latest_version_id' LIMIT 1",
+                rusqlite::params![],
+                |r| r.get(0),
+            )
+            .optional()?;
+        let latest_version_id = latest_version_id.map(|x| x.0).unwrap_or(NIL_VERSION_ID);
         if latest_version_id != NIL_VERSION_ID && parent_version_id != latest_version_id {
             return Ok((
                 AddVersionResult::ExpectedParentVersion(latest_version_id),
@@ -136,14 +111,22 @@ impl Server for LocalServer {
 
         #[cfg(gothenburgbitfactory_taskchampion_verif)]
         crate::server::verif_failpoint::hit("fp.local.before_insert")?;
-        self.add_version_by_parent_version_id(Version {
-            version_id,
-            parent_version_id,
-            history_segment,
-        })?;
+        t.execute(
+            "INSERT INTO versions (version_id, parent_version_id, data) VALUES (?, ?, ?)",
+            params![
+                StoredUuid(version_id),
+                StoredUuid(parent_version_id),
+                history_segment
+            ],
+        )?;
         #[cfg(gothenburgbitfactory_taskchampion_verif)]
         crate::server::verif_failpoint::hit("fp.local.between_insert_and_latest")?;
-        self.set_latest_version_id(version_id)?;
+        t.execute(
+            "INSERT OR REPLACE INTO data (key, value) VALUES ('latest_version_id', ?)",
+            params![&StoredUuid(version_id)],
+        )
+        .context("Update task query")?;
+        t.commit()?;
         #[cfg(gothenburgbitfactory_taskchampion_verif)]
         crate::server::verif_failpoint::hit("fp.local.after_latest")?;
 
